@@ -301,4 +301,89 @@ def rule_one_reader(ctx):
     r.floor(10)
 
 
-RULES = [rule_directive_agreement, rule_enum_tables, rule_string_escape_agreement, rule_all_written, rule_one_reader]
+def rule_ext_map_domain(ctx):
+    """file_ext mappings: print_extensions() writes an entry only if its stored language text is strcmp-equal to a
+    language_names[].name; so the value stored by the reader must come from that table (language_name_from_flags),
+    not from the user's spelling, which is matched case-insensitively."""
+    db = ctx.db
+    from ..flow import ReachingDefs, var_id
+    r = ctx.rule("ext-map-domain", "every value stored into g_ext_map is the result of language_name_from_flags() (the canonical table name) "
+                 "and print_extensions() selects entries by comparing with language_names[].name: stored domain = written domain")
+    LN = "src/language_names.cpp"
+    stores = []
+    for f in db.funcs.values():
+        for n in f.nodes.values():
+            if n["k"] == "call" and n.get("op") in ("=", "+=") and "o" in n and expr_str(f, n["o"]).startswith("g_ext_map["):
+                stores.append((f, n))
+            elif n["k"] == "call" and (n.get("c") or "").split("::")[-1] in ("insert", "emplace", "insert_or_assign", "try_emplace") and "o" in n and expr_str(f, n["o"]) == "g_ext_map":
+                stores.append((f, n))
+    r.require(stores, "no store into g_ext_map found")
+    for f, n in stores:
+        r.seen()
+        ok = False
+        v = f.nodes.get(n["a"][0]) if n.get("a") else None
+        while v is not None and v["k"] in ("cast", "ctor") and v.get("a"):
+            v = f.nodes.get(v["a"][0])
+        src = "?"
+        if v is not None and v["k"] == "call":
+            src = v.get("c")
+            ok = v.get("c") == "language_name_from_flags"
+        elif v is not None and v["k"] == "ref" and v.get("d") in ("lv",):
+            rd = ReachingDefs(f, db)
+            defs = list(rd.at(n["i"], var_id(v)))
+            rhss = [rd.rhs_of(i) for i in defs]
+            calls = []
+            for x in rhss:
+                y = f.nodes.get(x) if x is not None else None
+                while y is not None and y["k"] == "cast" and y.get("a"):
+                    y = f.nodes.get(y["a"][0])
+                calls.append(y.get("c") if y is not None and y["k"] == "call" else None)
+            src = calls
+            ok = bool(calls) and all(c == "language_name_from_flags" for c in calls)
+        elif v is not None:
+            src = expr_str(f, v["i"])
+        r.check(ok, "%s/g_ext_map-store" % f.qn, db.loc(f, n), "g_ext_map receives `%s` (from %s), not the canonical name returned by "
+                "language_name_from_flags(): print_extensions() compares with strcmp against the table and silently omits any other spelling"
+                % (expr_str(f, n["a"][0]) if n.get("a") else "?", src))
+    pe = db.fn("print_extensions", file=LN)
+    cmp_ok = any(n["k"] == "call" and n.get("c") == "strcmp" and "language.name" in [expr_str(pe, a) for a in n.get("a", ())] for n in pe.all_nodes())
+    r.check(cmp_ok, "print_extensions/selects-by-table-name", db.loc(pe, pe.l0), "print_extensions no longer selects entries by strcmp with language_names[].name")
+    lf = db.fn("language_name_from_flags", file=LN)
+    rets = [n for n in lf.all_nodes() if n["k"] == "ret" and n.get("a")]
+    r.check(any(expr_str(lf, n["a"][0]) == "language_name.name" for n in rets), "language_name_from_flags/returns-table-name", db.loc(lf, lf.l0),
+            "language_name_from_flags no longer returns language_names[].name for an exact match")
+    r.floor(3)
+
+
+def rule_line_verbatim(ctx):
+    """comment stripping and quoting are the business of split_args() alone (quote aware); load_option_file must hand
+    each line to process_option_line as it was read."""
+    db = ctx.db
+    r = ctx.rule("line-verbatim", "load_option_file passes each line read by std::getline to process_option_line without applying any "
+                 "mutating std::string operation to it (a '#' inside a quoted value must reach the quote-aware splitter)")
+    f = db.fn("uncrustify::load_option_file", file=OPT)
+    calls = db.calls_in(f, "uncrustify::process_option_line")
+    r.require(len(calls) == 1, "load_option_file: %d process_option_line calls" % len(calls))
+    var = expr_str(f, calls[0]["a"][0])
+    gl = [n for n in f.all_nodes() if n["k"] == "call" and (n.get("c") or "").startswith("std::getline") and var in [expr_str(f, a) for a in n.get("a", ())]]
+    r.require(gl, "the std::getline(in, %s) that fills the line was not found" % var)
+    MUT = ("erase", "resize", "pop_back", "push_back", "append", "assign", "replace", "insert", "clear", "operator=", "operator+=", "swap", "operator[]", "at", "front", "back", "begin", "end", "data")
+    n_ops = 0
+    for n in f.all_nodes():
+        if n["k"] == "call" and "o" in n and expr_str(f, n["o"]) == var:
+            meth = (n.get("c") or "").split("::")[-1]
+            n_ops += 1
+            r.seen()
+            if meth in MUT and not n.get("cq"):
+                # reads through operator[] on a non-const string are tolerated only as rvalues (not assigned to)
+                ps = f.parents().get(n["i"], [])
+                written = any(f.nodes[p]["k"] == "asg" and f.nodes[p]["a"][0] == n["i"] for p in ps) or meth not in ("operator[]", "at", "front", "back", "begin", "end", "data")
+                r.check(not written, "load_option_file/%s.%s" % (var, meth), db.loc(f, n),
+                        "load_option_file modifies the line (`%s`) before the quote-aware parser sees it" % expr_str(f, n["i"])[:80])
+        if n["k"] == "asg" and expr_str(f, n["a"][0]).startswith(var + "["):
+            r.check(False, "load_option_file/%s[]=" % var, db.loc(f, n), "load_option_file overwrites a character of the line")
+    r.ok("load_option_file/line-passed-on", db.loc(f, calls[0]), "%d read-only uses of `%s`" % (n_ops, var))
+    r.floor(1)
+
+
+RULES = [rule_directive_agreement, rule_enum_tables, rule_string_escape_agreement, rule_all_written, rule_one_reader, rule_ext_map_domain, rule_line_verbatim]
